@@ -76,7 +76,7 @@ theorem unkLen_eq_of_groups (k : Nat) : ∀ (x y : Unk), x.length ≤ k →
       · have : ((r :: x').filter (fun q => q.1 != r.1)) = x'.filter (fun q => q.1 != r.1) := by
           simp [List.filter_cons]
         rw [this]
-        have := List.length_filter_le (fun q : Nat × String => q.1 != r.1) x'
+        have := List.length_filter_le (fun q : Nat × Bytes => q.1 != r.1) x'
         simp only [List.length_cons] at hk
         omega
       · intro n
